@@ -11,6 +11,7 @@ import AcVerif.Engine.Recipe
 import AcVerif.Engine.Gates
 import AcVerif.Engine.Replace
 import AcVerif.Engine.Stream
+import AcVerif.Packed.Model
 /-!
 # Line-protocol driver: the model's answer to each request
 -/
@@ -230,6 +231,36 @@ def answerGate (r : Req) (c : Cfg) : String :=
         | some e => e.name
   | _, _, _ => "bad-request:gate"
 
+/-- `packed … pcfg=v1;v2`: one answer per packed configuration -/
+def answerPacked (r : Req) (variant : String) : String :=
+  match r.list? "pats", r.bytes? "hay" with
+  | some pats, some hay =>
+    let kind : PKind := if r.getD "mk" "lf" == "ll" then .ll else .lf
+    let avx2 := r.getD "avx2" "1" == "1"
+    let ssse3 := r.getD "ssse3" "1" == "1"
+    let patlimit := !(r.flag "nolimits")
+    let s? : Option (Option PackedSearcher) := match variant with
+      | "default" => some (packedBuild kind pats none none none patlimit avx2 ssse3)
+      | "rk" => some (packedBuild kind pats (some false) none none patlimit avx2 ssse3)
+      | "teddy" => some (packedBuild kind pats (some true) none none patlimit avx2 ssse3)
+      | "slim128" => some (packedBuild kind pats (some true) (some false) (some false) patlimit avx2 ssse3)
+      | "slim256" => some (packedBuild kind pats (some true) (some true) (some false) patlimit avx2 ssse3)
+      | "fat" => some (packedBuild kind pats (some true) (some true) (some true) patlimit avx2 ssse3)
+      | _ => none
+    match s? with
+    | none => "bad-request:variant"
+    | some none => "unavailable"
+    | some (some s) =>
+      let st := r.natD "s" 0
+      let en := r.natD "e" hay.length
+      if !(st ≤ en && en ≤ hay.length) then "bad-request:span"
+      else match r.getD "api" "find" with
+        | "find" => fmtOpt (s.findIn hay st en)
+        | "iter" => fmtList ((s.iter hay (hay.length + 2) 0).map fmtMat)
+        | "minlen" => toString s.minimumLen
+        | _ => "bad-api"
+  | _, _ => "bad-request:packed"
+
 def cfgsOf (r : Req) : List Cfg :=
   ((r.getD "cfgs" "nc.d.1.0.b").splitOn ";").filterMap Cfg.parse
 
@@ -400,6 +431,7 @@ def respond (lineNo : Nat) (line : String) : List String :=
     match r.op with
     | "certl1" => [s!"{lineNo} - {answerCert r}"]
     | "certpair" => [s!"{lineNo} - {answerCertPair r}"]
+    | "packed" => ((r.getD "pcfg" "default").splitOn ";").map fun v => s!"{lineNo} {v} {answerPacked r v}"
     | "gate" => (cfgsOf r).map fun c => s!"{lineNo} {c.name} {answerGate r c}"
     | _ => (cfgsOf r).map fun c => s!"{lineNo} {c.name} {answer r c}"
 
